@@ -114,6 +114,7 @@ class MultiTypeMap(dict):
         self.tiebreaks = {}
         self.dependent = {}
         self.type_tuples = {}
+        self.signatures = {}
         self.empty = MISSING
         self.key_error = key_error
         self.name = name
@@ -165,6 +166,14 @@ class MultiTypeMap(dict):
             for c in candidates:
                 specificities.setdefault(c, []).append(results[c])
 
+        if candidates is None:
+            # No arguments at all: any handler that requires none can take the call
+            candidates = {
+                handler
+                for handler, sig in self.signatures.items()
+                if sig.req_pos == 0 and not sig.req_names
+            }
+
         def declared_types(handler):
             # The declared types of the handler for the supplied arguments
             types = self.type_tuples[handler]
@@ -178,7 +187,7 @@ class MultiTypeMap(dict):
             Candidate(
                 handler=c,
                 priority=self.priorities.get(c, 0),
-                specificity=tuple(specificities[c]),
+                specificity=tuple(specificities.get(c, ())),
                 tiebreak=self.tiebreaks.get(c, 0),
                 types=declared_types(c),
             )
@@ -234,6 +243,7 @@ class MultiTypeMap(dict):
         self.priorities[handler] = sig.priority
         self.tiebreaks[handler] = sig.tiebreak
         self.type_tuples[handler] = obj_t_tup
+        self.signatures[handler] = sig
         self.dependent[handler] = any(
             is_dependent(t[1] if isinstance(t, tuple) else t) for t in obj_t_tup
         )
@@ -392,12 +402,8 @@ class MultiTypeMap(dict):
             else:
                 raise self.key_error(real_tup, ())
 
-        if not obj_t_tup:
-            if self.empty is MISSING:  # pragma: no cover
-                # Might not be reachable because of codegen
-                raise self.key_error(obj_t_tup, ())
-            else:
-                return self.empty[0]
+        if not obj_t_tup and self.empty is not MISSING:
+            return self.empty[0]
 
         self.resolve(obj_t_tup)
         if obj_t_tup in self.errors:
